@@ -164,6 +164,49 @@ def configs():
     return out
 
 
+def random_configs(rnd, n):
+    """seeded hierarchies and unions: 2-4 members out of Alpha..Delta, 1-3 tags each (tags drawn from a pool with shared
+    prefixes, upper / lower case, digits, separators), string or enum tag members, base + allOf or oneOf / anyOf,
+    optional back references"""
+    # (tags are free of the separators of the model driver's line protocol: space , = :
+    # and do not collide as Rust variant names: an enum-typed tag whose values collide follows the merge contract of C15)
+    pool = ["a", "a2", "b", "bb", "B1", "g", "gamma", "delta.d", "d+d", "x/y", "1", "true", "Zz", "k9", "in-progress", "done_ok"]
+    out = []
+    for k in range(n):
+        members = rnd.sample(["Alpha", "Beta", "Gamma", "Delta"], rnd.randint(2, 4))
+        tags = rnd.sample(pool, min(len(pool), sum(rnd.randint(1, 3) for _ in members)))
+        tagsof, i = {}, 0
+        for m in members:
+            cnt = max(1, min(len(tags) - i - (len(members) - len(tagsof) - 1), rnd.randint(1, 3)))
+            tagsof[m] = tags[i:i + cnt]
+            i += cnt
+        mapping = {t: c for c, ts in tagsof.items() for t in ts}
+        allv = sorted(mapping)
+        tagtype = rnd.choice(["string", "enum"])
+        style = rnd.choice(["base", "oneOf", "anyOf"])
+        if style == "base":
+            backref = rnd.random() < 0.4
+            schemas = {"Base": {"type": "object", "required": ["kind"], "properties": {"kind": tag_schema(tagtype, allv), "label": {"type": "string"}},
+                                "discriminator": {"propertyName": "kind", "mapping": {t: f"#/components/schemas/{c}" for t, c in mapping.items()}}}}
+            for c in members:
+                f, ty, _ = CHILD_FIELDS[c]
+                props = {f: {"type": ty}}
+                if backref:
+                    props["parent"] = R("Base")
+                schemas[c] = {"allOf": [R("Base"), {"type": "object", "properties": props}]}
+            out.append({"name": f"random{k}/base/{tagtype}/{len(allv)}tags", "spec": wrap(schemas),
+                        "unions": [{"name": "Base", "kind": "base", "prop": "kind", "mapping": mapping, "members": sorted(members), "base": "BaseBase"}]})
+        else:
+            schemas = {}
+            for c in members:
+                f, ty, _ = CHILD_FIELDS[c]
+                schemas[c] = {"type": "object", "required": ["kind"], "properties": {"kind": tag_schema(tagtype, allv), f: {"type": ty}}}
+            schemas["Uni"] = {style: [R(c) for c in members], "discriminator": {"propertyName": "kind", "mapping": {t: f"#/components/schemas/{c}" for t, c in mapping.items()}}}
+            out.append({"name": f"random{k}/{style}/{tagtype}/{len(allv)}tags", "spec": wrap(schemas),
+                        "unions": [{"name": "Uni", "kind": "union", "prop": "kind", "mapping": mapping, "members": members, "base": None}]})
+    return out
+
+
 # ---------------------------------------------------------------- read-back of the emitted dispatch table
 
 def read_enum(text, name):
@@ -203,7 +246,7 @@ def main(tier, seed, replay=None):
     coq_ok, out = vlib.standard_coq_obligations(res, TARGETS, THEOREMS, expect_closed=6)
     exe = vlib.ocaml_build("c14")
     res.oblige("extracted model (group, base_enum, upgrade, dispatch) builds", exe is not None)
-    cfgs = configs()
+    cfgs = configs() + random_configs(random.Random(f"c14-{seed}"), 12 if tier == "quick" else 250)
     if replay:
         r = json.load(open(replay))
         if "config" in r:
